@@ -18,9 +18,9 @@ TYPES = {
 }
 # trait key -> (package, path seen from Main, methods)
 TRAITS = {
-    "AShow": ("LibA", "LibA::Show", ["m", "n"]),
-    "BShow": ("LibB", "LibB::Show", ["m", "q"]),
-    "Tr": ("Main", "Tr", ["m", "r"]),
+    "AShow": ("LibA", "LibA::Show", ["m", "n", "nm"]),
+    "BShow": ("LibB", "LibB::Show", ["m", "q", "qm"]),
+    "Tr": ("Main", "Tr", ["m", "r", "rm"]),
 }
 TYPE_DEFS = {
     "LibA": "struct AS { a: int32 }\nenum AE { AX, AY(int32) }\n",
@@ -59,7 +59,9 @@ def allowed_home(trk, tk):
 
 
 def sig(m):
-    return {"m": ("(Self, int32) -> string", True), "n": ("(Self) -> string", False), "q": ("(Self) -> string", False), "r": ("(Self) -> string", False)}[m]
+    return {"m": ("(Self, int32) -> string", True), "n": ("(Self) -> string", False), "q": ("(Self) -> string", False), "r": ("(Self) -> string", False),
+            # names that END in another method's name, with that method's signature
+            "nm": ("(Self, int32) -> string", True), "qm": ("(Self, int32) -> string", True), "rm": ("(Self, int32) -> string", True)}[m]
 
 
 def method_body(trk, tk, m, show, arg):
@@ -98,7 +100,9 @@ class Gen:
                 continue
             tt = type_in(pkg, tk)
             ms = []
-            for m in TRAITS[trk][2]:
+            order = list(TRAITS[trk][2])
+            self.rng.shuffle(order)  # an impl may list its methods in any order
+            for m in order:
                 arg = sig(m)[1]
                 ms.append("    fn %s(self: %s%s) -> string { %s }" % (m, tt, ", a: int32" if arg else "", method_body(trk, tk, m, self.show(pkg, tk), arg)))
             out.append("impl %s for %s {\n%s\n}" % (trait_in(pkg, trk), tt, "\n".join(ms)))
